@@ -78,14 +78,31 @@ func c27e3body() (n int, pairs int, viols []explore.Violation) {
 			if want {
 				pairs++
 			}
-			if got := client.VMatch(client.VSplit(f), client.VSplit(t)); got != want {
-				add(fmt.Sprintf("match-differs-from-mqtt-rules:want=%t", want), fmt.Sprintf("match(%q, %q) = %t, MQTT 3.1.1 section 4.7 says %t", f, t, got, want))
+			// a panic in the matcher kills the client's receive loop: a violation, not a harness problem
+			panicked := func(what string, body func()) (p bool) {
+				defer func() {
+					if r := recover(); r != nil {
+						p = true
+						add("panic:"+what, fmt.Sprintf("%s with subscription %q and a message on %q panics: %v", what, f, t, r))
+					}
+				}()
+				body()
+				return false
+			}
+			if panicked("match", func() {
+				if got := client.VMatch(client.VSplit(f), client.VSplit(t)); got != want {
+					add(fmt.Sprintf("match-differs-from-mqtt-rules:want=%t", want), fmt.Sprintf("match(%q, %q) = %t, MQTT 3.1.1 section 4.7 says %t", f, t, got, want))
+				}
+			}) {
+				continue
 			}
 			// through store/handle/delete with one subscription
 			var h client.VHandlers
 			hit := 0
 			h.Store(f, func(*client.Client, string, *pkts1.Publish) { hit++ })
-			h.Handle(nil, t)
+			if panicked("dispatch", func() { h.Handle(nil, t) }) {
+				continue
+			}
 			waitCallbacks()
 			if (hit == 1) != want {
 				add(fmt.Sprintf("dispatch-differs:want=%t", want), fmt.Sprintf("subscription %q, message on %q: callback ran %d times, matching says %t", f, t, hit, want))
